@@ -13,7 +13,7 @@ from vlib import miri
 
 MODULE = "TriompheModel.Props.C02"
 
-QUICK = ["clone_read_drop_2t", "thin_offset_union_2t", "try_unwrap_vs_drop", "nodrop_payload_2t"]
+QUICK = ["clone_read_drop_2t", "thin_offset_union_2t", "try_unwrap_vs_drop", "nodrop_payload_2t", "arcswap_cell_last_owner"]
 ASSUME = [
     "M4 Consistent: the RC11/C++20 fragment for one location whose writes are all RMWs (coherence, release sequences in index form)",
     "M4 Protocol: safe-Rust ownership discipline (accesses through a handle lie between its birth and its release; a clone's source is alive during clone) is assumed, not derived from rustc",
@@ -93,7 +93,7 @@ def run(ctx):
             body.append("search: %d Miri runs over %s and %d native stress runs found no race / use-after-free" % (
                 ctx.coverage.get("search_runs", len(res)), ",".join(sorted({r["program"] for r in res})), len(nat)))
             body.append("Lean output:\n" + out[-3000:])
-            ctx.violation("theorem", "\n".join(body), False)
+            ctx.defer_nfi("\n".join(body))
 
 
 def replay(ctx, path):
